@@ -295,6 +295,11 @@ func runSession(t *tlog, o sessionOpts, rng *rand.Rand) (stats map[string]int, e
 			if !o.tracking || gp {
 				wk = true
 			}
+			if atomic.LoadInt32(&gen2) == 1 {
+				// a background handler of the first connection that got going only now: the harness' own
+				// reconnect may have wiped the tracker while the witness was evaluated
+				return
+			}
 			if ls[k].ipanic && kind == "fg" && h == "f1" {
 				// the line was dispatched: its built-in handler has panicked once
 				t.add(event{Ev: "ipanic"})
